@@ -66,7 +66,7 @@ type (
 	Query struct {
 		data Map
 		from []any
-		//processed           []any
+		filtered            []any
 		distinct            bool
 		selectDefinition    SelectDefinition
 		whereDefinition     WhereDefinition
@@ -1523,11 +1523,12 @@ func AggrFunExpr(query *Query, current Map, expr sqlparser.AggrFunc, opts ...Exp
 	}
 	rs, ok := query.singletonExecutions[name]
 	if !ok {
-		slice, err := AggrFuncArgReader(query, map[string]any{"*": query.from}, sqlparser.Exprs{Exprs: expr.GetArgs()})
+		all := Map{"*": query.filtered}
+		slice, err := AggrFuncArgReader(query, all, sqlparser.Exprs{Exprs: expr.GetArgs()})
 		if err != nil {
 			return nil, err
 		}
-		result, err := function(query, current, nil, slice)
+		result, err := function(query, all, nil, slice)
 		if err != nil {
 			return nil, err
 		}
@@ -1793,11 +1794,11 @@ func (query *Query) exec() (result any, err error) {
 			}
 		}
 	}
+	query.filtered = slice
 	rs, err := ExecGroupBy(query, slice)
 	if err != nil {
 		return nil, err
 	}
-	//query.processed = rs
 	offset := 0
 	if query.offsetDefinition != -1 {
 		offset = query.offsetDefinition
